@@ -126,6 +126,14 @@ def systematic_blocks():
     out.append(case(Fn, nest(cross([1], [1], [K("Sequential", f=1)]), ib), "C", ["Nest", "outerblock", "Sequential"], "blk-nest-ob-seq"))
     out.append(case(Fn, nest(cross([1], [1], [K("MinimumTrials", k=4)]), ib), "C", ["Nest", "outerblock", "MinimumTrials"], "blk-nest-ob-min4"))
     out.append(case(Fn, nest(ob, cross([2], [2], [K("MinimumTrials", k=3)])), "C", ["Nest", "inner", "MinimumTrials"], "blk-nest-in-min3"))
+    # Nest with an implied (uncrossed, unconstrained) derived factor in the outer / inner block (FX20)
+    Fn3 = [basic("o", 2), basic("i", 2), basic("u", 2)]
+    Fn3.append(derived(Fn3, "ou", [1, 3], "within", table=eq_table(Fn3, [1, 3])))
+    Fn3.append(derived(Fn3, "iu", [2, 3], "within", table=eq_table(Fn3, [2, 3])))
+    out.append(case(Fn3, nest(cross([1, 3, 4], [1]), cross([2], [2])), "C", ["Nest", "implied-derived", "outer"], "blk-nest-implied-outer"))
+    out.append(case(Fn3, nest(cross([1], [1]), cross([2, 3, 5], [2])), "C", ["Nest", "implied-derived", "inner"], "blk-nest-implied-inner"))
+    out.append(case(Fn3, nest(cross([1, 3, 4], [1], [K("AtMostKInARow", k=2, f=4, l=1)]), cross([2], [2])), "C",
+                    ["Nest", "constrained-derived", "outer"], "blk-nest-derived-outer-atmost"))
     Fn2 = [basic("o", 2), basic("m", 2), basic("i", 2)]
     out.append(case(Fn2, nest(nest(cross([1], [1]), cross([2], [2])), cross([3], [3])), "C", ["Nest", "nested-left"], "blk-nest-left"))
     out.append(case(Fn2, nest(cross([1], [1]), nest(cross([2], [2]), cross([3], [3]))), "C", ["Nest", "nested-right"], "blk-nest-right"))
@@ -263,4 +271,12 @@ def weighted_blocks():
                     ["weights", "Repeat", "weights-uncrossed", "outer", "AtMost1"], "wblk-repeat-uncrossed-out"))
     out.append(case(F, nest(cross([1], [1]), cross([2], [2])), "C", ["weights", "Nest"], "wblk-nest-outer-weighted"))
     out.append(case(F, nest(cross([2], [2]), cross([1], [1])), "C", ["weights", "Nest"], "wblk-nest-inner-weighted"))
+    # a weighted factor that is in NO crossing (desugared into a hidden pair of factors) inside Merge / Nest
+    F4 = F + [basic("d", 2)]
+    out.append(case(F4, merge([cross([2, 3], [2]), cross([4], [4])], [], "repeat", "equal"), "C",
+                    ["weights", "Merge", "weights-uncrossed"], "wblk-merge-uncrossed"))
+    out.append(case(F4, merge([cross([2, 3], [2], [K("AtMostKInARow", k=1, f=3, l=2)]), cross([4], [4])], [K("MinimumTrials", k=4)], "repeat", "equal"), "C",
+                    ["weights", "Merge", "weights-uncrossed", "inner", "AtMost1"], "wblk-merge-uncrossed-in"))
+    out.append(case(F4, nest(cross([2], [2]), cross([4, 3], [4])), "C", ["weights", "Nest", "weights-uncrossed"], "wblk-nest-inner-uncrossed"))
+    out.append(case(F4, nest(cross([2, 3], [2]), cross([4], [4])), "C", ["weights", "Nest", "weights-uncrossed"], "wblk-nest-outer-uncrossed"))
     return out
